@@ -63,8 +63,9 @@ type Uni struct {
 	// PanicsThrown counts the panics raised by resolvers and the directive on behalf of the plan.
 	PanicsThrown atomic.Int32
 
-	rmu    sync.Mutex
-	raised []refexec.Err
+	rmu       sync.Mutex
+	raised    []refexec.Err
+	typedNils []string // response paths at which a typed nil pointer was delivered
 
 	bind    map[string]refexec.Binding
 	retType map[string]reflect.Type
@@ -275,6 +276,23 @@ func (u *Uni) raise(path, msg string) {
 	u.rmu.Unlock()
 }
 
+func (u *Uni) noteTypedNil(path string) {
+	u.rmu.Lock()
+	u.typedNils = append(u.typedNils, path)
+	u.rmu.Unlock()
+}
+
+// TypedNils returns the response paths at which a typed nil pointer stood for null.
+func (u *Uni) TypedNils() map[string]bool {
+	u.rmu.Lock()
+	defer u.rmu.Unlock()
+	out := map[string]bool{}
+	for _, p := range u.typedNils {
+		out[p] = true
+	}
+	return out
+}
+
 // Raised returns the failures user code produced so far: each is an originating failure that
 // the response must report.
 func (u *Uni) Raised() []refexec.Err {
@@ -339,6 +357,14 @@ func (u *Uni) call(objType string, fd *ast.FieldDefinition, ft reflect.Type, arg
 		u.raise(path, u.Plan.PanicMsg(path))
 		panic(u.Plan.PanicMsg(path))
 	case refexec.KNull:
+		if out0.Kind() == reflect.Interface && u.Plan.TypedNil(path) {
+			// "null" as Go code often produces it at an interface position: a typed nil pointer
+			// (return findUser(id), nil) - a non-nil interface value holding a nil *User
+			if mt, ok := u.V.Models["User"]; ok && reflect.PointerTo(mt).Implements(out0) {
+				u.noteTypedNil(path)
+				return []reflect.Value{reflect.Zero(reflect.PointerTo(mt)).Convert(out0), reflect.Zero(errType)}
+			}
+		}
 		return retErr(ft, nil)
 	case refexec.KAddErrNull:
 		u.raise(path, u.Plan.ErrMsg(path))
@@ -468,6 +494,13 @@ func (u *Uni) Build(t reflect.Type, gt *ast.Type, key string) reflect.Value {
 		en := nilable(t.Elem())
 		for i := 0; i < n; i++ {
 			if u.Plan.ElemNull(key, i, en) {
+				if et := t.Elem(); et.Kind() == reflect.Interface && u.Plan.TypedNil(fmt.Sprintf("%s[%d]", key, i)) {
+					// a typed nil pointer inside the interface value (see call)
+					if mt, ok := u.V.Models["User"]; ok && reflect.PointerTo(mt).Implements(et) {
+						u.noteTypedNil(fmt.Sprintf("%s[%d]", key, i))
+						s.Index(i).Set(reflect.Zero(reflect.PointerTo(mt)).Convert(et))
+					}
+				}
 				continue
 			}
 			s.Index(i).Set(u.Build(t.Elem(), gt.Elem, fmt.Sprintf("%s[%d]", key, i)))
